@@ -520,7 +520,7 @@ func filterJoin(in *Value, param *Value) (*Value, *Error) {
 		return in, nil
 	}
 	sep := param.String()
-	if sep == "" {
+	if sep == "" && in.getResolvedValue().Kind() == reflect.String {
 		// An empty string separator returns the input string.
 		return AsValue(in.String()), nil
 	}
